@@ -493,6 +493,76 @@ func (w *liqWorld) opLimit(a *sim.Acct) {
 	}
 }
 
+// opCrowd: several users rest orders of very different sizes (big, big, tiny) on ONE tick in the same batch and
+// a counter-order fills the tick only partly, so the matcher's pro-rata split with its drop-and-redistribute
+// rounds decides who gets the truncation remainders.
+func (w *liqWorld) opCrowd() {
+	pair, ok := w.pickPair()
+	if !ok {
+		return
+	}
+	app := pair.AppId
+	ref := w.refPrice(pair)
+	dir := w.direction(ref)
+	opp := liqtypes.OrderDirectionBuy
+	if dir == liqtypes.OrderDirectionBuy {
+		opp = liqtypes.OrderDirectionSell
+	}
+	rate := w.rateNum[app]
+	place := func(a *sim.Acct, d liqtypes.OrderDirection, price sdk.Dec, amt sdkmath.Int, what string) {
+		offerDenom, demandDenom := pair.BaseCoinDenom, pair.QuoteCoinDenom
+		if d == liqtypes.OrderDirectionBuy {
+			offerDenom, demandDenom = pair.QuoteCoinDenom, pair.BaseCoinDenom
+		}
+		var offer sdkmath.Int
+		if !liqSafely(func() {
+			base := amm.OfferCoinAmount(amm.OrderDirection(d), price, amt)
+			offer = base.Add(sdkmath.NewIntFromBigInt(liqFee(base.BigInt(), rate)))
+		}) || !offer.IsPositive() {
+			return
+		}
+		msg := liqtypes.NewMsgLimitOrder(app, a.Addr, pair.Id, d, sdk.NewCoin(offerDenom, offer), demandDenom, price, amt, 10*time.Second)
+		st := w.deliver(a, "limit-order", msg, fmt.Sprintf("app=%d pair=%d %s price=%s amt=%s(crowd/%s) offer=%s%s", app, pair.Id, liqDirName(d), price, amt, what, offer, offerDenom))
+		if st.OK {
+			w.rec.Count("orders_placed/limit/crowd-"+what, 1)
+		}
+	}
+	k := 3 + w.rnd.Intn(3)
+	users := append([]*sim.Acct(nil), w.orderers...)
+	w.rnd.Shuffle(len(users), func(i, j int) { users[i], users[j] = users[j], users[i] })
+	big := int64(50_000 + w.rnd.Intn(200_000))
+	total := int64(0)
+	tinyAt := w.rnd.Intn(k)
+	for i := 0; i < k && i < len(users)-1; i++ {
+		amt := big
+		what := "big"
+		if i == tinyAt {
+			amt, what = int64(100+w.rnd.Intn(200)), "tiny"
+		} else if w.rnd.Intn(3) == 0 {
+			amt = big + int64(w.rnd.Intn(1000))
+		}
+		total += amt
+		place(users[i], dir, ref, sdkmath.NewInt(amt), what)
+	}
+	var fill int64
+	switch w.rnd.Intn(6) {
+	case 0, 1, 2:
+		fill = int64(101 + w.rnd.Intn(400))
+	case 3:
+		fill = total / 2
+	case 4:
+		fill = total - int64(1+w.rnd.Intn(150))
+	default:
+		fill = int64(100 + w.rnd.Int63n(total))
+	}
+	cross := ref.Mul(sdk.MustNewDecFromStr("1.02"))
+	if opp == liqtypes.OrderDirectionSell {
+		cross = ref.Mul(sdk.MustNewDecFromStr("0.98"))
+	}
+	place(users[len(users)-1], opp, cross, sdkmath.NewInt(fill), "counter")
+	w.rec.Count("crowd_ops", 1)
+}
+
 func (w *liqWorld) opMarket(a *sim.Acct) {
 	pair, ok := w.pickPair()
 	if !ok {
@@ -970,8 +1040,10 @@ func (w *liqWorld) randomOp() {
 	}
 	a := w.orderers[r.Intn(len(w.orderers))]
 	switch x := r.Intn(100); {
-	case x < 36:
+	case x < 31:
 		w.opLimit(a)
+	case x < 36:
+		w.opCrowd()
 	case x < 40:
 		w.opMulti(a)
 	case x < 52:
